@@ -18,6 +18,7 @@ second-to-last axis puts blocks side by side / on top of each other.
 from __future__ import annotations
 
 import ast
+import re
 import hashlib
 import os
 
@@ -321,6 +322,26 @@ def tr_join_tables(join_fn):
             "  fold_left (fun l s => if negb (idmem s l) && negb (idmem s structs) then l ++ [s] else l) (toA ++ toB) [].\n")
 
 
+def tr_join_structs(join_fn):
+    """the list of leaf structures the merged structure stands for"""
+    texts = [ast.unparse(x) for x in strip_doc(join_fn.body)]
+    def want(o):
+        return (f"if len({o}.structures) == 0:\n    new_st.structures.append({o})\n    {o}.gone_to = new_st\nelse:\n"
+                f"    for st1 in {o}.structures:\n        new_st.structures.append(st1)\n        st1.gone_to = new_st")
+    try:
+        k = texts.index(want("self"))
+    except ValueError:
+        raise Unsupported("Structure.join: the construction of new_st.structures not found / changed")
+    if texts[k + 1] != want("st"):
+        raise Unsupported("Structure.join: the second half of new_st.structures changed: " + texts[k + 1][:300])
+    for i, t in enumerate(texts):
+        if i not in (k, k + 1) and re.search(r"new_st\.structures\s*(=|\.append|\.remove|\.pop|\.insert|\.extend|\+=)", t):
+            raise Unsupported("Structure.join writes new_st.structures elsewhere: " + t[:200])
+    return ("Definition join_structs_src (a b : nat) (sa sb : list nat) : list nat :=\n"
+            "  let l := if Nat.eqb (List.length sa) 0 then [a] else fold_left (fun l s => l ++ [s]) sa [] in\n"
+            "  if Nat.eqb (List.length sb) 0 then l ++ [b] else fold_left (fun l s => l ++ [s]) sb l.\n")
+
+
 def translate(repo: str) -> str:
     p = os.path.join(repo, "lekkersim", "structure.py")
     with open(p) as fh:
@@ -349,6 +370,7 @@ def translate(repo: str) -> str:
     out.append(tr_join_links(find_fn(tree, "Structure", "join"), find_fn(tree, "Structure", "get_out_to"),
                              find_fn(tree, "Structure", "get_in_from")))
     out.append(tr_join_tables(find_fn(tree, "Structure", "join")))
+    out.append(tr_join_structs(find_fn(tree, "Structure", "join")))
     return "\n".join(out) + "\n"
 
 
